@@ -401,6 +401,7 @@ def c04_rf18(run):
     rf_fold.rf180(run)
     rf_inline.rf190(run)
     rf_fold.rf100(run)
+    rf_fold.rf200(run)
     rf_flow.rf71(run, units=('mir',))
     run.min_instances('RF71', 3)
     rf_fold.rf48(run)
@@ -621,6 +622,7 @@ def c02_rf26(run):
     rf_fold.rf86(run)
     rf_fold.rf87(run)
     rf_fold.rf100(run)
+    rf_fold.rf200(run)
     rf_x86.rf110(run)
     rf_fold.rf141(run)
     rf_fold.rf170(run)
